@@ -103,6 +103,7 @@ var propSpecs = map[string]*PropSpec{
 		Level:       "proof",
 		Explanation: "JSONMinify against the RFC 8259 string lexer as a ghost automaton: inductive invariant 'the code's flags agree with the automaton' and, per character, 'copied once unchanged unless white space outside a string'; WriteJSON hands the writer exactly the minified (or unminified) marshalled text of the handler's value; WriteMaybeCompressed sends the body or its announced gzip",
 		TrustedBase: []string{"encoding/json.MarshalIndent emits a JSON text (no backslash outside a string)", "RFC 8259 §2: white space between tokens is insignificant", "compress/gzip round trip", "unicode.IsSpace is false of '\"' and '\\'"},
+		Extra:       c19Extra,
 	},
 	"C38": {
 		Patterns:    []string{"./..."},
